@@ -118,6 +118,428 @@ theorem loadChr_base_zero (c : String) (base : Nat) (recs : List Rec) (foreign :
   have h2 := loadFrom_shift c base (entriesFrom c 0 recs) 0 recs
   simpa using h2
 
+/-! ### the YAML parser: every experiment is parsed from its own entry -/
+
+def hasKey (d : NameDict) (k : String) : Bool := d.any (fun p => p.1 == k)
+
+theorem lookup_none_of_not_hasKey (d : NameDict) (k : String) (h : hasKey d k = false) : d.lookup k = none := by
+  induction d with
+  | nil => rfl
+  | cons p d ih =>
+    obtain ⟨a, b⟩ := p
+    simp only [hasKey, List.any_cons, Bool.or_eq_false_iff] at h
+    have hk : (k == a) = false := by
+      have := h.1
+      simp only [beq_eq_false_iff_ne, ne_eq] at this ⊢
+      exact fun e => this e.symm
+    simp only [List.lookup, hk]
+    exact ih h.2
+
+theorem dictGet_fresh (d : NameDict) (k : String) (h : hasKey d k = false) : dictGet d k = [] := by
+  simp [dictGet, lookup_none_of_not_hasKey d k h]
+
+theorem dictSet_fresh (d : NameDict) (k : String) (v : List (String × String)) (h : hasKey d k = false) :
+    dictSet d k v = d ++ [(k, v)] := by
+  have : (d.any fun p => p.1 == k) = false := h
+  simp [dictSet, this]
+
+theorem dictGet_set_same (d : NameDict) (k : String) (v : List (String × String)) (h : hasKey d k = false) :
+    dictGet (dictSet d k v) k = v := by
+  rw [dictSet_fresh d k v h]
+  simp [dictGet, List.lookup_append, lookup_none_of_not_hasKey d k h, List.lookup]
+
+theorem dictGet_set_other (d : NameDict) (k k' : String) (v : List (String × String)) (h : hasKey d k = false)
+    (hne : k' ≠ k) : dictGet (dictSet d k v) k' = dictGet d k' := by
+  rw [dictSet_fresh d k v h]
+  have hb : (k' == k) = false := by simpa using hne
+  cases hl : d.lookup k' <;> simp [dictGet, List.lookup_append, hl, List.lookup, hb]
+
+theorem hasKey_set (d : NameDict) (k k' : String) (v : List (String × String)) (h : hasKey d k = false) :
+    hasKey (dictSet d k v) k' = true → hasKey d k' = true ∨ k' = k := by
+  rw [dictSet_fresh d k v h]
+  intro hk
+  simp only [hasKey, List.any_append, List.any_cons, List.any_nil, Bool.or_false, Bool.or_eq_true] at hk
+  rcases hk with hk | hk
+  · exact Or.inl hk
+  · have : k = k' := by simpa using hk
+    exact Or.inr this.symm
+
+/-- loop invariant: the samples finished so far, and every name the locals mention is among the names used -/
+structure ParseInv (st : ParseSt) (outs : List ParsedSample) (used : List String) : Prop where
+  fin : finishParse st = outs
+  names : ∀ n ∈ st.names, n ∈ used
+  keys : ∀ k, hasKey st.dict k = true → k ∈ used
+  acc : ∀ t ∈ st.acc, t.1 ∈ used
+
+theorem finishParse_dict_fresh (st : ParseSt) (used : List String) (n : String) (v : List (String × String))
+    (hacc : ∀ t ∈ st.acc, t.1 ∈ used) (hk : hasKey st.dict n = false) (hn : n ∉ used) :
+    st.acc.map (fun t => (⟨t.1, t.2.1, dictGet (dictSet st.dict n v) t.1, t.2.2⟩ : ParsedSample)) = finishParse st := by
+  unfold finishParse
+  apply List.map_congr_left
+  intro t ht
+  have : t.1 ≠ n := fun e => hn (e ▸ hacc t ht)
+  rw [dictGet_set_other st.dict n t.1 v hk this]
+
+theorem yamlStep_own (pfx : String) (st : ParseSt) (outs : List ParsedSample) (used : List String)
+    (e : YamlEntry) (n : String) (hI : ParseInv st outs used) (hn : e.name = some n) (hfresh : n ∉ used) :
+    match parseOwnYaml e n with
+    | none => yamlStep pfx st e = none
+    | some r => ∃ st', yamlStep pfx st e = some st' ∧ ParseInv st' (outs ++ r.toList) (n :: used) := by
+  have hnames : st.names.contains n = false := by
+    rw [Bool.eq_false_iff]
+    intro h
+    exact hfresh (hI.names n (by simpa using h))
+  have hkey : hasKey st.dict n = false := by
+    rw [Bool.eq_false_iff]
+    intro h
+    exact hfresh (hI.keys n h)
+  unfold parseOwnYaml yamlStep
+  simp only [hn, hnames, Bool.false_and, Bool.false_eq_true, if_false]
+  cases hf : e.files with
+  | none => simp
+  | some fs =>
+    simp only
+    cases hl : labelled fs e.labels with
+    | none => simp
+    | some pairs =>
+      simp only [dictGet_fresh st.dict n hkey]
+      cases ha : addFiles [] pairs with
+      | none => simp
+      | some d =>
+        simp only
+        by_cases hemp : fs.isEmpty = true
+        · simp only [hemp, if_true]
+          refine ⟨_, rfl, ?_⟩
+          constructor
+          · simp only [Option.toList, List.append_nil]
+            show List.map _ st.acc = outs
+            rw [finishParse_dict_fresh st used n d hI.acc hkey hfresh, hI.fin]
+          · intro m hm; exact List.mem_cons_of_mem _ (hI.names m hm)
+          · intro k hk
+            rcases hasKey_set st.dict n k d hkey hk with h | h
+            · exact List.mem_cons_of_mem _ (hI.keys k h)
+            · exact h ▸ List.mem_cons_self
+          · intro t ht; exact List.mem_cons_of_mem _ (hI.acc t ht)
+        · simp only [hemp, Bool.false_eq_true, if_false]
+          refine ⟨_, rfl, ?_⟩
+          constructor
+          · show List.map _ (st.acc ++ _) = _
+            rw [List.map_append, finishParse_dict_fresh st used n d hI.acc hkey hfresh, hI.fin]
+            simp [Option.toList, dictGet_set_same st.dict n d hkey]
+          · intro m hm
+            rcases List.mem_append.mp hm with h | h
+            · exact List.mem_cons_of_mem _ (hI.names m h)
+            · simp only [List.mem_singleton] at h; exact h ▸ List.mem_cons_self
+          · intro k hk
+            rcases hasKey_set st.dict n k d hkey hk with h | h
+            · exact List.mem_cons_of_mem _ (hI.keys k h)
+            · exact h ▸ List.mem_cons_self
+          · intro t ht
+            rcases List.mem_append.mp ht with h | h
+            · exact List.mem_cons_of_mem _ (hI.acc t h)
+            · simp only [List.mem_singleton] at h; rw [h]; exact List.mem_cons_self
+
+theorem yamlLoop_own (pfx : String) (entries : List YamlEntry) (ns : List String) (st : ParseSt)
+    (outs : List ParsedSample) (used : List String) (hI : ParseInv st outs used)
+    (hnames : entries.map YamlEntry.name = ns.map some) (hnd : ns.Nodup) (hfresh : ∀ n ∈ ns, n ∉ used) :
+    (yamlLoop pfx st entries).map finishParse = (parseEachOwn (entries.zip ns)).map (fun rs => outs ++ rs) := by
+  induction entries generalizing ns st outs used with
+  | nil =>
+    cases ns with
+    | nil => simp [yamlLoop, parseEachOwn, hI.fin]
+    | cons n ns => simp at hnames
+  | cons e es ih =>
+    cases ns with
+    | nil => simp at hnames
+    | cons n ns =>
+      simp only [List.map_cons, List.cons.injEq] at hnames
+      have hnd' := List.nodup_cons.mp hnd
+      have hstep := yamlStep_own pfx st outs used e n hI hnames.1 (hfresh n List.mem_cons_self)
+      simp only [List.zip_cons_cons, parseEachOwn, yamlLoop]
+      cases hp : parseOwnYaml e n with
+      | none =>
+        simp only [hp] at hstep
+        simp [hstep]
+      | some r =>
+        simp only [hp] at hstep
+        obtain ⟨st', hs, hI'⟩ := hstep
+        simp only [hs]
+        have := ih ns st' (outs ++ r.toList) (n :: used) hI' hnames.2 hnd'.2 (by
+          intro m hm hmu
+          rcases List.mem_cons.mp hmu with h | h
+          · exact hnd'.1 (h ▸ hm)
+          · exact hfresh m (List.mem_cons_of_mem _ hm) h)
+        rw [this]
+        cases parseEachOwn (es.zip ns) <;> simp [List.append_assoc]
+
+/-! ### the list-file parser -/
+
+theorem lookup_map_replace (d : NameDict) (k : String) (v : List (String × String)) (h : hasKey d k = true) :
+    (d.map (fun p => if p.1 == k then (k, v) else p)).lookup k = some v := by
+  induction d with
+  | nil => simp [hasKey] at h
+  | cons p d ih =>
+    obtain ⟨a, b⟩ := p
+    by_cases ha : a = k
+    · subst ha
+      simp [List.lookup]
+    · have h1 : (a == k) = false := by simpa using ha
+      have h2 : (k == a) = false := by simpa using fun e : k = a => ha e.symm
+      simp only [hasKey, List.any_cons, h1, Bool.false_or] at h
+      simp only [List.map_cons, h1, Bool.false_eq_true, if_false, List.lookup, h2]
+      exact ih h
+
+theorem lookup_map_replace_other (d : NameDict) (k k' : String) (v : List (String × String)) (hne : k' ≠ k) :
+    (d.map (fun p => if p.1 == k then (k, v) else p)).lookup k' = d.lookup k' := by
+  induction d with
+  | nil => rfl
+  | cons p d ih =>
+    obtain ⟨a, b⟩ := p
+    have hk : (k' == k) = false := by simpa using hne
+    by_cases ha : a = k
+    · subst ha
+      simp only [List.map_cons, beq_self_eq_true, if_true, List.lookup, hk]
+      exact ih
+    · have h1 : (a == k) = false := by simpa using ha
+      simp only [List.map_cons, h1, Bool.false_eq_true, if_false, List.lookup]
+      cases hka : (k' == a)
+      · exact ih
+      · rfl
+
+theorem hasKey_map_replace (d : NameDict) (k k' : String) (v : List (String × String)) :
+    hasKey (d.map (fun p => if p.1 == k then (k, v) else p)) k' = hasKey d k' := by
+  induction d with
+  | nil => rfl
+  | cons p d ih =>
+    obtain ⟨a, b⟩ := p
+    simp only [hasKey, List.map_cons, List.any_cons] at ih ⊢
+    rw [ih]
+    by_cases ha : a = k
+    · subst ha; simp
+    · have h1 : (a == k) = false := by simpa using ha
+      simp [h1]
+
+theorem dictGet_set_same' (d : NameDict) (k : String) (v : List (String × String)) :
+    dictGet (dictSet d k v) k = v := by
+  cases h : hasKey d k with
+  | false => exact dictGet_set_same d k v h
+  | true =>
+    have h' : (d.any fun p => p.1 == k) = true := h
+    unfold dictGet dictSet
+    rw [if_pos h', lookup_map_replace d k v h]
+
+theorem dictGet_set_other' (d : NameDict) (k k' : String) (v : List (String × String)) (hne : k' ≠ k) :
+    dictGet (dictSet d k v) k' = dictGet d k' := by
+  cases h : hasKey d k with
+  | false => exact dictGet_set_other d k k' v h hne
+  | true =>
+    have h' : (d.any fun p => p.1 == k) = true := h
+    unfold dictGet dictSet
+    rw [if_pos h', lookup_map_replace_other d k k' v hne]
+
+theorem hasKey_set' (d : NameDict) (k k' : String) (v : List (String × String)) :
+    hasKey (dictSet d k v) k' = true → hasKey d k' = true ∨ k' = k := by
+  cases h : hasKey d k with
+  | false => exact hasKey_set d k k' v h
+  | true =>
+    have h' : (d.any fun p => p.1 == k) = true := h
+    intro hk
+    left
+    simp only [dictSet, h', if_true] at hk
+    rwa [hasKey_map_replace] at hk
+
+/-- what a run of file lines does to the locals: only the pending sample and the labels under its name change -/
+structure FilesFrame (s s' : ListSt) (d' : List (String × String)) (c' : List (List String)) : Prop where
+  cur : s'.cur = c'
+  curName : s'.curName = s.curName
+  names : s'.st.names = s.st.names
+  index : s'.st.index = s.st.index
+  acc : s'.st.acc = s.st.acc
+  own : dictGet s'.st.dict s.curName = d'
+  other : ∀ k, k ≠ s.curName → dictGet s'.st.dict k = dictGet s.st.dict k
+  keys : ∀ k, hasKey s'.st.dict k = true → hasKey s.st.dict k = true ∨ k = s.curName
+
+theorem listLoop_files (pfx : String) (lines : List ListLine) (hl : ∀ l ∈ lines, l.isFiles = true) (s : ListSt) :
+    match blockOwn (dictGet s.st.dict s.curName) s.cur lines with
+    | none => listLoop pfx s lines = none
+    | some r => ∃ s', listLoop pfx s lines = some s' ∧ FilesFrame s s' r.1 r.2 := by
+  induction lines generalizing s with
+  | nil =>
+    simp only [blockOwn, listLoop]
+    exact ⟨s, rfl, ⟨rfl, rfl, rfl, rfl, rfl, rfl, fun _ _ => rfl, fun _ h => Or.inl h⟩⟩
+  | cons l ls ih =>
+    cases l with
+    | header n => simp [ListLine.isFiles] at hl
+    | files fs label =>
+      have hls : ∀ l ∈ ls, l.isFiles = true := fun l h => hl l (List.mem_cons_of_mem _ h)
+      simp only [blockOwn, listLoop, listStep]
+      cases ha : addFiles (dictGet s.st.dict s.curName) (fs.map (fun f => (f.path, lineLabel fs label))) with
+      | none => simp
+      | some d1 =>
+        simp only
+        have := ih hls { s with st := { s.st with dict := dictSet s.st.dict s.curName d1 },
+                                cur := s.cur ++ [fs.map InFile.path] }
+        simp only [dictGet_set_same'] at this
+        cases hb : blockOwn d1 (s.cur ++ [fs.map InFile.path]) ls with
+        | none => simp only [hb] at this; simpa using this
+        | some r =>
+          simp only [hb] at this
+          obtain ⟨s', hs', fr⟩ := this
+          refine ⟨s', hs', ?_⟩
+          exact ⟨fr.cur, fr.curName, fr.names, fr.index, fr.acc, fr.own,
+            fun k hk => by rw [fr.other k hk]; exact dictGet_set_other' _ _ _ _ hk,
+            fun k hk => by
+              rcases fr.keys k hk with h | h
+              · exact hasKey_set' _ _ _ _ h
+              · exact Or.inr h⟩
+
+def finishWith (d : NameDict) (acc : List (String × List (List String) × Option (List String))) : List ParsedSample :=
+  acc.map (fun t => ⟨t.1, t.2.1, dictGet d t.1, t.2.2⟩)
+
+theorem finishParse_eq (st : ParseSt) : finishParse st = finishWith st.dict st.acc := rfl
+
+theorem finishWith_congr (d d' : NameDict) (acc : List (String × List (List String) × Option (List String)))
+    (h : ∀ t ∈ acc, dictGet d' t.1 = dictGet d t.1) : finishWith d' acc = finishWith d acc := by
+  unfold finishWith
+  apply List.map_congr_left
+  intro t ht
+  rw [h t ht]
+
+structure ListInv (s : ListSt) (outs : List ParsedSample) (used : List String) : Prop where
+  fin : finishParse s.flush = outs
+  names : ∀ n ∈ s.flush.names, n ∈ used
+  keys : ∀ k, hasKey s.st.dict k = true → k ∈ used
+  acc : ∀ t ∈ s.flush.acc, t.1 ∈ used
+
+theorem flush_dict (s : ListSt) : s.flush.dict = s.st.dict := by
+  unfold ListSt.flush; split <;> rfl
+
+theorem flush_index (s : ListSt) : s.flush.index = s.st.index := by
+  unfold ListSt.flush; split <;> rfl
+
+theorem listBlock_own (pfx : String) (s : ListSt) (outs : List ParsedSample) (used : List String)
+    (n : String) (lines : List ListLine) (hI : ListInv s outs used) (hne : n.isEmpty = false)
+    (hfresh : n ∉ used) (hl : ∀ l ∈ lines, l.isFiles = true) :
+    match ownBlock n lines with
+    | none => listLoop pfx s (ListLine.header n :: lines) = none
+    | some r => ∃ s', listLoop pfx s (ListLine.header n :: lines) = some s' ∧ ListInv s' (outs ++ r.toList) (n :: used) := by
+  have hnames : s.flush.names.contains n = false := by
+    rw [Bool.eq_false_iff]
+    intro h
+    exact hfresh (hI.names n (by simpa using h))
+  have hkey : hasKey s.st.dict n = false := by
+    rw [Bool.eq_false_iff]
+    intro h
+    exact hfresh (hI.keys n h)
+  -- the header line
+  have hhead : listStep pfx s (ListLine.header n)
+      = some ⟨{ s.flush with index := s.flush.index + 1 }, [], n⟩ := by
+    have hmem : n ∉ s.flush.names := fun h => hfresh (hI.names n h)
+    simp [listStep, hne, hmem]
+  simp only [listLoop, hhead]
+  -- the file lines
+  have hfiles := listLoop_files pfx lines hl ⟨{ s.flush with index := s.flush.index + 1 }, [], n⟩
+  have hd : dictGet s.flush.dict n = [] := by rw [flush_dict]; exact dictGet_fresh _ _ hkey
+  dsimp only at hfiles
+  rw [hd] at hfiles
+  unfold ownBlock
+  cases hb : blockOwn [] [] lines with
+  | none => simp only [hb] at hfiles; simpa using hfiles
+  | some r =>
+    obtain ⟨d, c⟩ := r
+    simp only [hb] at hfiles
+    obtain ⟨s', hs', fr⟩ := hfiles
+    have hcur := fr.cur; have hcn := fr.curName; have hnm := fr.names; have hacc := fr.acc
+    have hown := fr.own; have hoth := fr.other; have hkeys := fr.keys
+    dsimp only at hcur hcn hnm hacc hown hoth hkeys
+    have hold : ∀ t ∈ s.flush.acc, dictGet s'.st.dict t.1 = dictGet s.flush.dict t.1 := by
+      intro t ht
+      have : t.1 ≠ n := fun e => hfresh (e ▸ hI.acc t ht)
+      rw [hoth t.1 this]
+    have hfinOld : finishWith s'.st.dict s.flush.acc = outs := by
+      rw [finishWith_congr _ _ _ hold, ← finishParse_eq, hI.fin]
+    have hkeys' : ∀ k, hasKey s'.st.dict k = true → k ∈ n :: used := by
+      intro k hk
+      rcases hkeys k hk with h | h
+      · rw [flush_dict] at h; exact List.mem_cons_of_mem _ (hI.keys k h)
+      · exact h ▸ List.mem_cons_self
+    by_cases hemp : c.isEmpty = true
+    · simp only [hemp, if_true]
+      refine ⟨s', hs', ?_⟩
+      have hfl : s'.flush = s'.st := by simp [ListSt.flush, hcur, hemp]
+      constructor
+      · rw [hfl, finishParse_eq, hacc]; simpa [Option.toList] using hfinOld
+      · intro m hm; rw [hfl, hnm] at hm; exact List.mem_cons_of_mem _ (hI.names m hm)
+      · exact hkeys'
+      · intro t ht; rw [hfl, hacc] at ht; exact List.mem_cons_of_mem _ (hI.acc t ht)
+    · simp only [hemp, Bool.false_eq_true, if_false]
+      refine ⟨s', hs', ?_⟩
+      have hfl : s'.flush = { s'.st with names := s'.st.names ++ [n], acc := s'.st.acc ++ [(n, c, none)] } := by
+        simp [ListSt.flush, hcur, hcn, hemp]
+      constructor
+      · rw [hfl, finishParse_eq]
+        simp only [hacc, finishWith, List.map_append, List.map_cons, List.map_nil, Option.toList, hown]
+        have := hfinOld
+        simp only [finishWith] at this
+        rw [this]
+      · intro m hm
+        rw [hfl] at hm
+        simp only [hnm] at hm
+        rcases List.mem_append.mp hm with h | h
+        · exact List.mem_cons_of_mem _ (hI.names m h)
+        · simp only [List.mem_singleton] at h; exact h ▸ List.mem_cons_self
+      · exact hkeys'
+      · intro t ht
+        rw [hfl] at ht
+        simp only [hacc] at ht
+        rcases List.mem_append.mp ht with h | h
+        · exact List.mem_cons_of_mem _ (hI.acc t h)
+        · simp only [List.mem_singleton] at h; rw [h]; exact List.mem_cons_self
+
+theorem listLoop_append (pfx : String) (l1 l2 : List ListLine) (s : ListSt) :
+    listLoop pfx s (l1 ++ l2) = (listLoop pfx s l1).bind (fun s' => listLoop pfx s' l2) := by
+  induction l1 generalizing s with
+  | nil => simp [listLoop]
+  | cons l ls ih =>
+    simp only [List.cons_append, listLoop]
+    cases listStep pfx s l with
+    | none => simp
+    | some s' => simpa using ih s'
+
+theorem listLoop_blocks (pfx : String) (blocks : List (String × List ListLine)) (s : ListSt)
+    (outs : List ParsedSample) (used : List String) (hI : ListInv s outs used)
+    (hne : ∀ b ∈ blocks, b.1.isEmpty = false ∧ ∀ l ∈ b.2, l.isFiles = true)
+    (hnd : (blocks.map Prod.fst).Nodup) (hfresh : ∀ b ∈ blocks, b.1 ∉ used) :
+    (listLoop pfx s (renderBlocks blocks)).map (fun s' => finishParse s'.flush)
+      = (parseEachOwnBlock blocks).map (fun rs => outs ++ rs) := by
+  induction blocks generalizing s outs used with
+  | nil => simp [renderBlocks, listLoop, parseEachOwnBlock, hI.fin]
+  | cons b bs ih =>
+    obtain ⟨n, lines⟩ := b
+    have hb := hne (n, lines) List.mem_cons_self
+    simp only [List.map_cons, List.nodup_cons] at hnd
+    have hstep := listBlock_own pfx s outs used n lines hI hb.1 (hfresh (n, lines) List.mem_cons_self) hb.2
+    have hr : renderBlocks ((n, lines) :: bs) = (ListLine.header n :: lines) ++ renderBlocks bs := by
+      simp [renderBlocks]
+    rw [hr, listLoop_append]
+    simp only [parseEachOwnBlock]
+    cases hp : ownBlock n lines with
+    | none =>
+      simp only [hp] at hstep
+      simp [hstep]
+    | some r =>
+      simp only [hp] at hstep
+      obtain ⟨s', hs, hI'⟩ := hstep
+      simp only [hs, Option.bind]
+      have := ih s' (outs ++ r.toList) (n :: used) hI'
+        (fun b hb' => hne b (List.mem_cons_of_mem _ hb')) hnd.2 (by
+          intro b hb' hmu
+          rcases List.mem_cons.mp hmu with h | h
+          · exact hnd.1 (List.mem_map.mpr ⟨b, hb', h⟩)
+          · exact hfresh b (List.mem_cons_of_mem _ hb') h)
+      rw [this]
+      cases parseEachOwnBlock bs <;> simp [List.append_assoc]
+
 /-! ### unionKeys -/
 
 theorem mem_unionKeys (acc ks : List String) (x : String) :
